@@ -201,6 +201,17 @@ Example ex_inputs_id_changes :
   inputs_id jprint "S" [("block[0].source", "file:///a.csv", "d1", 10%Z)] <> inputs_id jprint "S" [("block[0].source", "file:///a.csv", "d2", 10%Z)].
 Proof. vm_compute. discriminate. Qed.
 
+(* both defects are repaired on the current tree (fix commits): hard obligations + unconditional corollaries *)
+Lemma gen_enrich_on_copy : enrich_on_copy = true.
+Proof. reflexivity. Qed.
+Lemma gen_spec_id_paths_agree : spec_id_paths_agree = true.
+Proof. reflexivity. Qed.
+Definition C09_impl_is_spec := fun H => C09_impl_is_spec_full H gen_enrich_on_copy.
+Definition C09_no_leak := fun H => C09_no_leak_full H gen_enrich_on_copy.
+Definition C09_spec_id_agree := fun HJ => C09_spec_id_agree_full HJ gen_spec_id_paths_agree.
+Print Assumptions C09_impl_is_spec.
+Print Assumptions C09_no_leak.
+Print Assumptions C09_spec_id_agree.
 Print Assumptions C09_launch_is_map.
 Print Assumptions C09_impl_is_spec_full.
 Print Assumptions C09_impl_is_spec_partial.
